@@ -552,7 +552,7 @@ def cmd_check(pid, tier, only=None, keep=False, jobs=None):
         print(l)
     # evidence
     passed = [r for r in results if r["verdict"] == "PASS"]
-    nontrivial = [r for r in passed if (r.get("stats", {}).get("vars", 0) > 0 or r.get("nontrivial")) and
+    nontrivial = [r for r in passed if (r.get("stats", {}).get("vars", 0) > 0 or r.get("stats", {}).get("vccs_remaining", 0) > 0 or r.get("nontrivial")) and
                   (r.get("witness") or {}).get("points", 0) > 0 and not (r.get("witness") or {}).get("unreached")]
     meta = getattr(mod, "META", {})
     ev = {
@@ -560,7 +560,7 @@ def cmd_check(pid, tier, only=None, keep=False, jobs=None):
         "coverage": {
             "evaluations": len(results),
             "distinct_nontrivial": len(set(r["query"] for r in nontrivial)),
-            "rule": "one evaluation = one bounded symbolic query (goto-cc of the harness and the real units from the current /repo tree, cbmc with unwinding assertions; or an SMT query of an encoder named in the sample); non-trivial = verdict PASS, formula has >0 variables after slicing, and every WITNESS point of the -DWITNESS twin is reachable",
+            "rule": "one evaluation = one bounded symbolic query (goto-cc of the harness and the real units from the current /repo tree, cbmc with unwinding assertions; or an SMT query of an encoder named in the sample); non-trivial = verdict PASS, the formula has >0 SAT variables or (SMT/external back ends, which report no variable count) >0 verification conditions left after simplification, and every WITNESS point of the -DWITNESS twin is reachable",
             "states": max(1, sum((r.get("stats", {}) or {}).get("steps", 0) or 0 for r in results)),
             "transitions": max(1, sum((r.get("stats", {}) or {}).get("vccs", 0) or 0 for r in results)),
             "traces_validated_against_impl": sum(1 for r in results for fx in r.get("failed", []) if (fx.get("replay") or {}).get("native_rc") is not None),
